@@ -184,25 +184,33 @@ Qed.
 (** ** A boolean core flag seen inside a quiescent task context *)
 
 (** [quiet m]: nothing is pending -- the current flag (if any) already has its
-    value, so [check_ambiguity] and [complete_flag] are no-ops. *)
+    value, so [check_ambiguity] and [complete_flag] are no-ops.  (Since repair
+    9120dc5 [complete_flag] looks at [flag_got_value]: a stale flag that requires
+    a value -- list-kind or not optional -- must have received one.) *)
 Definition quiet (m : machine) : bool :=
   match flag_arg m with
   | None => true
-  | Some r => r_raw r && negb (akind_eqb (a_kind (r_spec r)) KList && negb (m_got m))
+  | Some r => r_raw r &&
+              negb ((akind_eqb (a_kind (r_spec r)) KList
+                     || (takes_value (r_spec r) && negb (a_optional (r_spec r))))
+                    && negb (m_got m))
   end.
 
 Lemma quiet_not_waiting m : quiet m = true -> waiting m = false.
 Proof.
   unfold quiet, waiting. destruct (flag_arg m) as [r|]; [|reflexivity].
-  rewrite andb_true_iff. intros [R K]. destruct (takes_value (r_spec r)); [|reflexivity].
-  rewrite negb_true_iff in K. rewrite K, R. reflexivity.
+  rewrite andb_true_iff. intros [R K]. rewrite R. rewrite negb_true_iff in K.
+  destruct (akind_eqb (a_kind (r_spec r)) KList), (takes_value (r_spec r)), (m_got m);
+    simpl in *; try reflexivity; discriminate.
 Qed.
 
 Lemma quiet_complete_flag m : quiet m = true -> complete_flag m = Ok m.
 Proof.
   unfold quiet, complete_flag. destruct (m_flag m) as [f|] eqn:F; [|reflexivity].
   unfold flag_arg. rewrite F. destruct (get_arg m f) as [r|]; [|reflexivity].
-  rewrite andb_true_iff. intros [R _]. rewrite R. simpl. rewrite andb_false_r. reflexivity.
+  rewrite andb_true_iff. intros [R K]. rewrite R. rewrite negb_true_iff in K.
+  destruct (akind_eqb (a_kind (r_spec r)) KList), (takes_value (r_spec r)),
+    (a_optional (r_spec r)), (m_got m); simpl in *; try reflexivity; discriminate.
 Qed.
 
 Lemma quiet_check_ambiguity p v m : quiet m = true -> check_ambiguity p v m = Ok m.
@@ -252,20 +260,64 @@ Definition task_b : ctxspec :=
 Definition task_n : ctxspec :=
   mkCtx (Some "n") [] [mkArg ["list"; "l"] KStr ANone false true false None].
 
-(** F-C18a: a glued short value inside a task context is split into flags:
-    [a -T5] sets the command timeout to -5 (and [a -fpath] does not parse). *)
-Lemma refuted_glued :
-  exists cs groups opt j flags,
-    model_spec cs groups opt j flags None = false /\
-    (exists r, model_program cs ["-T5"; "a"] = Ok r /\ kw_get "command-timeout" (g_core r) = Some (AInt 5)) /\
-    (exists r, model_program cs ["a"; "-T5"] = Ok r /\ kw_get "command-timeout" (g_core r) = Some (AInt (-5))) /\
-    model_program cs ["a"; "-fpath"] = Err EParse.
+(** F-C18a (repaired by dd95c66): a glued short value of a core option inside a
+    task context is recognised -- [a -T5] sets the command timeout to 5 like
+    [-T5 a] does, and [a -fpath] parses. *)
+Lemma glued_inside_task :
+  model_spec [task_a] [["a"]] ["-T5"] 1 ["-T"] None = true /\
+  (exists r, model_program [task_a] ["-T5"; "a"] = Ok r /\ kw_get "command-timeout" (g_core r) = Some (AInt 5)) /\
+  (exists r, model_program [task_a] ["a"; "-T5"] = Ok r /\ kw_get "command-timeout" (g_core r) = Some (AInt 5)) /\
+  (exists r, model_program [task_a] ["a"; "-fpath"] = Ok r /\ kw_get "config" (g_core r) = Some (AStr "path")).
 Proof.
-  exists [task_a], [["a"]], ["-T5"], 1, ["-T"].
   split; [vm_compute; reflexivity|]. split; [|split].
   - eexists. split; vm_compute; reflexivity.
   - eexists. split; vm_compute; reflexivity.
-  - vm_compute. reflexivity.
+  - eexists. split; vm_compute; reflexivity.
+Qed.
+
+(** Historical record (F-C18a, fixed): the token-splitting rule before dd95c66
+    consulted the current context only.  On the machine that has just entered
+    task "a", "-T5" was torn into "-T" "-5" (hence timeout -5), whereas the
+    repaired rule yields "-T" with the glued value "5". *)
+Definition presplit_old (m : machine) (t : string) : result (string * list string) :=
+  if is_flag t && match m_unparsed m with [] => true | _ => false end then
+    if contains_char "=" t then
+      let '(h, _, v) := partition_char "=" t in Ok (h, [v])
+    else if negb (is_long_flag t) && Nat.ltb 2 (String.length t) then
+      let h := take 2 t in
+      let rest := drop 2 t in
+      let have :=
+        match cur_ctx m with
+        | None => false
+        | Some c =>
+            match find_flag (rc_args c) h with
+            | Some i =>
+                negb (pstate_eqb (m_st m) SUnknown) &&
+                match nth_error (rc_args c) i with
+                | Some r => takes_value (r_spec r)
+                | None => false
+                end
+            | None => false
+            end
+        end in
+      if have then Ok (h, [rest]) else Ok (h, dash_each rest)
+    else Ok (t, [])
+  else Ok (t, []).
+
+Definition in_task_a : machine :=
+  mkM [init_ctx core_ctx; init_ctx task_a] true (Some 1) [0] None false SContext [].
+
+Lemma glued_historical_refuted :
+  (exists fuel m, new_machine (mkP [task_a] (Some core_ctx) false) = Ok m /\
+                  loop (mkP [task_a] (Some core_ctx) false) fuel m ["a"] = Some (Ok in_task_a)) /\
+  presplit_old in_task_a "-T5" = Ok ("-T", ["-5"]) /\
+  presplit in_task_a "-T5" = Ok ("-T", ["5"]) /\
+  presplit_old in_task_a "-fpath" = Ok ("-f", ["-p"; "-a"; "-t"; "-h"]) /\
+  presplit in_task_a "-fpath" = Ok ("-f", ["path"]).
+Proof.
+  split.
+  - exists 5. eexists. split; vm_compute; reflexivity.
+  - repeat split; vm_compute; reflexivity.
 Qed.
 
 (** F-C18b: a core flag placed before a pending positional is swallowed as
@@ -299,7 +351,7 @@ Qed.
 (** ** Bounded sweep (a test): every core option (except --help) x spelling
     (long, short; spaced, "=", glued) x every boundary of a fixed two-call
     invocation.  The model satisfies the complete [spec_ok] except inside the
-    three catalogued regions. *)
+    two catalogued regions. *)
 Definition sweep_cs : list ctxspec :=
   [mkCtx (Some "t") []
      [mkArg ["name"; "n"] KStr ANone false false false None;
@@ -331,12 +383,12 @@ Definition sweep_cases : list (list string * string * bool * nat) :=
                   (spellings_of a)) (cx_args core_ctx).
 
 (** boundary 3 follows the value-less optional flag --opt (F-C18c); boundary 5
-    is between "p" and its positional value (F-C18b); glued forms at any
-    boundary inside a task (F-C18a). *)
+    is between "p" and its positional value (F-C18b).  (Glued forms inside a
+    task were exempted too before repair dd95c66 -- F-C18a, fixed.) *)
 Definition sweep18_ok (c : list string * string * bool * nat) : bool :=
   let '(opt, fl, glued, j) := c in
   model_spec sweep_cs sweep_groups opt j [fl] None
-  || (glued && Nat.leb 1 j) || Nat.eqb j 3 || Nat.eqb j 5.
+  || Nat.eqb j 3 || Nat.eqb j 5.
 
 Lemma placement_sweep : forallb sweep18_ok sweep_cases = true.
 Proof. vm_compute. reflexivity. Qed.
